@@ -157,7 +157,8 @@ def write_replay_file(prop, name, case):
 
 def write_evidence(prop, ev):
     # development runs against another tree (VERIF_REPO) must not overwrite the evidence about /repo
-    d = os.path.join(ROOT, "evidence") if os.path.realpath(REPO) == "/repo" else os.path.join(ROOT, "replays", "_evidence_other_tree")
+    full = os.path.realpath(REPO) == "/repo" and not os.environ.get("VERIF_ONLY")
+    d = os.path.join(ROOT, "evidence") if full else os.path.join(ROOT, "replays", "_evidence_other_tree")
     os.makedirs(d, exist_ok=True)
     path = os.path.join(d, prop + ".json")
     tmp = path + ".tmp%d" % os.getpid()
